@@ -181,6 +181,8 @@ class Line(Component):
 
         ## Backup
         self.is_backup = False
+        # True while the line is oriented against the direction it was built with
+        self.direction_changed = False
 
         ## Topological attributes
         self.fbus = fbus
@@ -425,6 +427,29 @@ class Line(Component):
         bus = self.fbus
         self.fbus = self.tbus
         self.tbus = bus
+        self.direction_changed = not self.direction_changed
+
+    def restore_direction(self):
+        """
+        Restores the direction the line was built with
+
+        Parameters
+        ----------
+        None
+
+        Returns
+        ----------
+        None
+
+        """
+        if self.direction_changed:
+            if self.connected:
+                self.change_direction()
+            else:
+                # A line that is out of service is not registered
+                # on its buses, only the ends are swapped
+                self.fbus, self.tbus = self.tbus, self.fbus
+                self.direction_changed = False
 
     def update_fail_status(self, dt: Time):
         """
